@@ -51,6 +51,8 @@ def _save_yaml(data_dict: dict | object, out_file: str | Path, registered_class=
     yaml = YAML(typ="safe")
     yaml.default_flow_style = None
     yaml.representer.ignore_aliases = lambda *data: True
+    # keep the insertion order of mappings (e.g. the order of the class groups); sorting keys would change it on a round trip
+    yaml.representer.sort_base_mapping_type_on_output = False
     _register_helper_classes(yaml)
     if registered_class is not None:
         yaml.register_class(registered_class)
